@@ -13,11 +13,3 @@ for id in "$@"; do
   VERIF_REPO="$WT" ./check "$id" 2>&1 | grep -E "VIOLATION|KNOWN-FINDING|quick:|thorough:|INFRA" | cut -c1-260 || true
 done
 git -C "$WT" checkout -q -- .
-# point the runner crate back at /repo
-python3 - <<'PY'
-import re
-p='/verif/harness/runner/Cargo.toml'
-s=open(p).read()
-s=re.sub(r'path = "[^"]*/core"','path = "/repo/core"',s); s=re.sub(r'path = "[^"]*/lib"','path = "/repo/lib"',s)
-open(p,'w').write(s)
-PY
